@@ -59,6 +59,7 @@ def transition_task(cls_name, ctype, cone, W, N, prop, tier):
     rtype = A.region_type(cls_name, ctype)
     kind = "paveba" if cls_name in A.PAVEBA else "pess"
     ex = Explorer(f"{prop}:{cls_name}[{rtype[5:9]},{cone},N={N}]", query_timeout_ms=60000, max_paths=400000)
+    ex.stop_after_candidates = 3
     state = {}
     nslack = m if rtype == "hyperrectangle" else K
 
@@ -149,6 +150,12 @@ def transition_task(cls_name, ctype, cone, W, N, prop, tier):
 def _realise(ex, ctx, name, claim, T, regs, cls_name, ctype, cone, W, alpha, eps, a, N, state, prop, rtype, nslack):
     """stage 2: concrete regions whose exact geometry yields a table violating the claim"""
     K, m = W.shape
+    ex.realise_attempts = getattr(ex, "realise_attempts", 0) + 1
+    if ex.realise_attempts > 6:
+        ex.stop_after_candidates = 0   # enough refuting tables examined: stop exploring this harness
+        if not getattr(ex, "n_candidates", 0):
+            ex.inconclusive.append("realisation budget exhausted without a realised counterexample")
+        return
     defs = []
     exact = True
     for (kind, i, j, key), v in list(T.vars.items()):
@@ -172,14 +179,15 @@ def _realise(ex, ctx, name, claim, T, regs, cls_name, ctype, cone, W, alpha, eps
                 exact = False
                 continue
             if kind == "DOM":
-                d = A.rect_dom_def(W, regs[i], regs[j], s)
-                defs.append(v == d)
+                defs.append(z3.Implies(v, A.rect_dom_def(W, regs[i], regs[j], s, True)))
+                defs.append(z3.Implies(z3.Not(v), A.rect_dom_def(W, regs[i], regs[j], s, False)))
             else:
                 defs.append(z3.Implies(v, A.rect_cov_def(ctx, W, regs[i], regs[j], s, True)))
                 defs.append(z3.Implies(z3.Not(v), A.rect_cov_def(ctx, W, regs[i], regs[j], s, False)))
         else:
             if kind == "DOM":
-                defs.append(v == A.sphere_dom_def(W, regs[i], regs[j], s))
+                defs.append(z3.Implies(v, A.sphere_dom_def(W, regs[i], regs[j], s, True)))
+                defs.append(z3.Implies(z3.Not(v), A.sphere_dom_def(W, regs[i], regs[j], s, False)))
             else:
                 defs.append(z3.Implies(v, A.sphere_cov_def(ctx, W, regs[i], regs[j], s, True)))
                 defs.append(z3.Implies(z3.Not(v), A.sphere_cov_def(ctx, W, regs[i], regs[j], s, False)))
@@ -194,12 +202,12 @@ def _realise(ex, ctx, name, claim, T, regs, cls_name, ctype, cone, W, alpha, eps
             bounds += [c >= -8 for c in zs(r.center)] + [c <= 8 for c in zs(r.center)] + \
                       [sym.to_z3(r.alpha) >= Fraction(1, 8), sym.to_z3(r.alpha) <= 4]
     try:
-        mdl = ctx.satisfiable([z3.Not(claim)] + defs + bounds, timeout_ms=120000)
+        mdl = ctx.satisfiable([z3.Not(claim)] + defs + bounds, timeout_ms=45000)
     except Inconclusive:
         ex.inconclusive.append(f"realisation query unknown for a table refuting '{name}'")
         return
     if mdl is None:
-        if exact:
+        if False and exact:  # with margins the definitions are no longer iff: unrealisable ≠ infeasible
             ctx.note("refuting table geometrically unrealisable (discarded)")
             ex.notes["unrealisable_tables"] = ex.notes.get("unrealisable_tables", 0) + 1
         else:
